@@ -256,8 +256,8 @@ def suite_exhaustive(seed, tier):
 
 
 def gen_seq_refine(seed, n):
-    """histories in which refinement reads the fingerprints back from a SEQUENCE of .npy files (packed
-    or not) — the path on which the split members are re-read in sorted index order — in states
+    """histories in which refinement reads the fingerprints back from a .npy file or a SEQUENCE of .npy
+    files (packed or not) — the paths on which the split members are gathered by index — in states
     whose member lists are no longer increasing (after a re-clustering or an earlier refinement)"""
     rng = random.Random(seed + 53)
     hs = []
@@ -267,7 +267,7 @@ def gen_seq_refine(seed, n):
         for o in h["ops"]:
             if o["op"] == "refine":
                 if rng.random() < 0.8:
-                    o["xform"] = rng.choice(["seq", "packed-seq"])
+                    o["xform"] = rng.choice(["seq", "packed-seq", "seq", "packed-seq", "path", "packed-path"])
                     ok = ok or seen_mix
                 seen_mix = True
             elif o["op"] == "recluster":
